@@ -56,4 +56,14 @@ PROPS = {
         exhaustive=True,
         assumptions=['FirstIndex of the harness store = least key; indices < 2^62'],
     ),
+    'C04': dict(
+        props_file='Props/C04.v',
+        components=['c04'],
+        comp_names={6: 'node sequence (appendEntries through processRPC on a stepper node)'},
+        rule='follower logs = every non-decreasing term sequence over {1,2,3} of length <=4 (35) x leader logs of length <=5 (56) x previous index 0..5 x 0..3 entries x '
+             'LeaderCommit in {0,2,5} (thorough: all ~1.4e5; quick: 1/14 sample), a sample with a store failure at the 1st/2nd/3rd durable op or a crash cut, each request followed by '
+             'its duplicate and a heartbeat; plus follower logs starting above a snapshot boundary. Compared: response, ordered store/FSM call trace, full state incl. log contents. '
+             'Non-trivial = an AppendEntries succeeded, or a crash cut/panic happened',
+        assumptions=['entry payload is a function of (index, term) in the generated logs (the log-matching premise)', 'protocol version 3'],
+    ),
 }
